@@ -3,7 +3,7 @@ Model of the provider-locator half of `KademliaTable` (src/dht/KademliaTable.cpp
 `add_contact` (locator part), `find_providers`, `sweep_expired` (locator part),
 `withdraw_contact`.  Times are integers (nanoseconds of the steady clock); ids are opaque
 strings.  `std::unordered_map<std::string, ChunkLocator>` is a finite map, modelled as a
-function `String → Option Loc` (`none` = no entry).  `std::sort`'s order among equal expiries
+lookup function `String → Option Loc` (`none` = no entry).  `std::sort`'s order among equal expiries
 is unspecified, so the truncation step takes an explicit *hint* (the set of peers to keep):
 every valid hint is honoured, an invalid or missing one falls back to a stable sort.  All
 theorems quantify over every hint.
@@ -25,13 +25,18 @@ structure Loc where
   exp : Int
 deriving DecidableEq, Repr, Inhabited
 
-/-- `unordered_map<string, ChunkLocator> table_` -/
-abbrev Table := String → Option Loc
+/-- `unordered_map<string, ChunkLocator> table_`: a finite map, as a lookup function.
+    (A structure rather than a bare function type, so that the compiled driver evaluates each
+    operation once instead of re-running it inside every later lookup.) -/
+structure Table where
+  get : String → Option Loc
 
-def Table.empty : Table := fun _ => none
+instance : CoeFun Table (fun _ => String → Option Loc) := ⟨Table.get⟩
+
+def Table.empty : Table := ⟨fun _ => none⟩
 
 /-- `table_[c] = v` / `table_.erase(c)` -/
-def Table.set (t : Table) (c : String) (v : Option Loc) : Table := fun k => if k = c then v else t k
+def Table.set (t : Table) (c : String) (v : Option Loc) : Table := ⟨fun k => if k = c then v else t k⟩
 
 def maxProviders : Nat := EphVerif.Gen.C06.kMaxProviders
 
@@ -86,12 +91,12 @@ def findProviders (t : Table) (now : Int) (c : String) : Table × List Holder :=
     else (t.set c (some { l with holders := hs }), hs)
 
 /-- the locator loop of `sweep_expired`: every entry is visited once -/
-def sweep (t : Table) (now : Int) : Table := fun c =>
+def sweep (t : Table) (now : Int) : Table := ⟨fun c =>
   match t c with
   | none => none
   | some l =>
     let hs := l.holders.filter (fun h => !expired now h)
-    if hs.isEmpty || decide (now ≥ l.exp) then none else some { l with holders := hs }
+    if hs.isEmpty || decide (now ≥ l.exp) then none else some { l with holders := hs }⟩
 
 def withdraw (t : Table) (c p : String) : Table :=
   match t c with
